@@ -213,7 +213,7 @@ pub fn parse_filter(w: &World, s: &str) -> InstrumentFilter {
     }
 }
 
-fn fmt_side(s: Side) -> &'static str {
+pub fn fmt_side(s: Side) -> &'static str {
     match s {
         Side::Buy => "B",
         Side::Sell => "S",
@@ -251,13 +251,13 @@ fn fmt_err(e: &EngineError) -> &'static str {
     }
 }
 
-fn cid_num(s: &str) -> u64 {
+pub fn cid_num(s: &str) -> u64 {
     s.parse().unwrap_or(u64::MAX)
 }
 
 /// the injected close-position cid generator yields `9000 + InstrumentIndex`; print it as
 /// `9000 + instrument label`
-fn canon_cid(w: &World, cid: &str) -> String {
+pub fn canon_cid(w: &World, cid: &str) -> String {
     match cid.parse::<usize>() {
         Ok(n) if (9000..9100).contains(&n) => format!("{}", 9000 + w.ins_label(n - 9000)),
         _ => cid.to_string(),
@@ -319,8 +319,16 @@ pub fn observe_state(w: &World, lines: &mut Vec<String>) {
     lines.push(format!("disabled_calls {}", engine.strategy.trading_disabled_calls));
 }
 
-/// `ev ...`: build the engine event, process it, print the tick's observations.
-pub fn run_event(w: &mut World, toks: &[String], algo: Option<(Vec<OrderRequestCancel>, Vec<OrderRequestOpen>)>, lines: &mut Vec<String>) {
+pub enum Built2 {
+    Event(Event, bool),
+    /// the op names an instrument the engine does not know (the code would panic)
+    Panic,
+    /// `flat` on an instrument without a position: nothing to send
+    Noop,
+}
+
+/// `ev ...` tokens -> engine event (second component: it is a `cancel_orders` command)
+pub fn build_event(w: &mut World, toks: &[String]) -> Built2 {
     w.tick += 1;
     let time = time_ms(w.tick);
     let n = w.ins_idx.len();
@@ -338,8 +346,7 @@ pub fn run_event(w: &mut World, toks: &[String], algo: Option<(Vec<OrderRequestC
         "trading" => EngineEvent::TradingStateUpdate(if toks[1] == "on" { TradingState::Enabled } else { TradingState::Disabled }),
         "snap" | "resp" | "fill" | "flat" | "price" => {
             if !ins_in_range(&toks[1]) {
-                lines.push("panic".into());
-                return;
+                return Built2::Panic;
             }
             let i: usize = toks[1].parse().unwrap();
             let idx = InstrumentIndex(w.ins_idx[i]);
@@ -393,9 +400,8 @@ pub fn run_event(w: &mut World, toks: &[String], algo: Option<(Vec<OrderRequestC
                         }
                     };
                     if qty.is_zero() {
-                        // nothing to close: no event reaches the engine, but the tick is still observed
-                        lines.push("noop".into());
-                        return;
+                        // nothing to close: no event reaches the engine
+                        return Built2::Noop;
                     }
                     EngineEvent::Account(AccountStreamEvent::Item(AccountEvent {
                         exchange: ex,
@@ -427,6 +433,22 @@ pub fn run_event(w: &mut World, toks: &[String], algo: Option<(Vec<OrderRequestC
             }
         }
         other => panic!("bad event {other}"),
+    };
+    Built2::Event(event, is_cancel_orders)
+}
+
+/// `ev ...`: build the engine event, process it, print the tick's observations.
+pub fn run_event(w: &mut World, toks: &[String], algo: Option<(Vec<OrderRequestCancel>, Vec<OrderRequestOpen>)>, lines: &mut Vec<String>) {
+    let (event, is_cancel_orders) = match build_event(w, toks) {
+        Built2::Event(e, c) => (e, c),
+        Built2::Panic => {
+            lines.push("panic".into());
+            return;
+        }
+        Built2::Noop => {
+            lines.push("noop".into());
+            return;
+        }
     };
 
     if let Some(a) = algo {
@@ -548,4 +570,32 @@ pub fn run_case(case: &Case, lines: &mut Vec<String>) {
             other => panic!("bad op {other}"),
         }
     }
+}
+
+/// Orders, position, price of every instrument and the trading state of ANY engine state (the
+/// engine's own or a replica's), keys prefixed with `pfx`.
+pub fn observe_any(w: &World, state: &State, pfx: &str, lines: &mut Vec<String>) {
+    for (label, idx) in w.ins_idx.iter().enumerate() {
+        let ins = state.instruments.instrument_index(&InstrumentIndex(*idx));
+        let mut v: Vec<(String, &ActiveOrderState)> =
+            ins.orders.0.iter().map(|(cid, o)| (canon_cid(w, &cid.0), &o.state)).collect();
+        v.sort_by_key(|(cid, _)| cid_num(cid));
+        lines.push(format!(
+            "{pfx}ord{label} {}",
+            v.iter().map(|(cid, st)| format!("{}:{}", cid, fmt_active(st))).collect::<Vec<_>>().join(" ")
+        ));
+        lines.push(match &ins.position.current {
+            None => format!("{pfx}pos{label} none"),
+            Some(p) => format!("{pfx}pos{label} {}:{}", fmt_side(p.side), fmt_dec(p.quantity_abs)),
+        });
+        use barter::engine::state::instrument::data::InstrumentDataState;
+        lines.push(match ins.data.price() {
+            None => format!("{pfx}price{label} none"),
+            Some(p) => format!("{pfx}price{label} {}", fmt_dec(p)),
+        });
+    }
+    lines.push(format!(
+        "{pfx}trading {}",
+        if state.trading == TradingState::Enabled { "on" } else { "off" }
+    ));
 }
